@@ -423,6 +423,7 @@ class OptimalityLemmas(Contract):
 
     prop = "C01"
     name = "OptimalityLemmas"
+    lemma_files = (__import__("pathlib").Path(__file__).resolve().parent.parent / "lemmas" / "LeastSquares.lean",)
     target = None
     strength = "U"
     trusted = ("Lean 4.33 kernel and Mathlib (definitions of Matrix.mulVec, dotProduct, transpose); axioms propext, Classical.choice, Quot.sound",)
